@@ -4,7 +4,7 @@
    The gen_... expressions are GENERATED from /repo on every run (Generated/Readspec.v, translate/c16.py). *)
 From Coq Require Import ZArith List Bool Arith Permutation.
 Import ListNotations.
-From PV Require Import Generated.Readspec C16.Model C16.ListLemmas C16.Proofs C16.Source.
+From PV Require Import Generated.Readspec C16.Model C16.ListLemmas C16.Proofs C16.AllFibers C16.Paths C16.Source.
 Open Scope nat_scope.
 
 (* ---------------------------------------------------------------- plate-MJD keys *)
@@ -271,6 +271,142 @@ Proof.
 Qed.
 Print Assumptions C16_source_spec_append.
 
+(* znum (repaired in /repo 8f0f102): the spZall row the SOURCE reads, gen_z_row (gen_znum_fiber ...), is the
+   0-based row (fiber-1)*nper + znum - 1, and that is the row the model selects *)
+Theorem C16_source_znum_row : forall (c : nat) (znum : Z) (f : file) (fiber : Z),
+  gen_z_row (gen_znum_fiber fiber (f_nper f) znum) = ((fiber - 1) * f_nper f + znum - 1)%Z /\
+  ext1 (WZall c znum) f fiber =
+    (let i := gen_z_row (gen_znum_fiber fiber (f_nper f) znum) in
+     if (i <? 0)%Z then None else nth_error (nth c (f_zall f) []) (Z.to_nat i)).
+Proof. exact (fun c znum f fiber => conj (src_znum_row fiber (f_nper f) znum) (src_zall_row c znum f fiber)). Qed.
+Print Assumptions C16_source_znum_row.
+
+(* number_of_fibers constants and the format strings / environment variable names of spec_path and readspec *)
+Theorem C16_source_nfiber_constants : gen_nfiber_boss_mjd = boss_first_mjd /\ gen_nfiber_sdss = sdss_nfiber.
+Proof. exact src_nfiber. Qed.
+Print Assumptions C16_source_nfiber_constants.
+
+Theorem C16_source_formats :
+  gen_dir_plate_width = plate_width /\ gen_pmjd_plate_width = plate_width /\ gen_pmjd_mjd_width = mjd_width /\
+  gen_pmjd_sep = [dash] /\
+  (gen_pre_spplate, gen_suf_spplate) = (pre_spplate, dot_fits) /\
+  (gen_pre_spzbest, gen_suf_spzbest) = (pre_spzbest, dot_fits) /\
+  (gen_pre_spzall, gen_suf_spzall) = (pre_spzall, dot_fits) /\
+  (gen_pre_photoplate, gen_suf_photoplate) = (pre_photoplate, dot_fits) /\
+  gen_env_int_run2d = name_SPECTRO_REDUX /\ gen_env_other_run2d = name_BOSS_SPECTRO_REDUX.
+Proof. exact src_formats. Qed.
+Print Assumptions C16_source_formats.
+
+(* ---------------------------------------------------------------- fiber=None: number_of_fibers and the expansion *)
+
+(* every plate before MJD 55025: 640 fibres each *)
+Theorem C16_number_of_fibers_sdss : forall sv pl r2 r1 plates,
+  (forall p, In p plates -> (latest_mjd sv p < boss_first_mjd)%Z) ->
+  number_of_fibers sv pl r2 r1 plates = Some (map (fun _ => sdss_nfiber) plates).
+Proof. exact number_of_fibers_sdss. Qed.
+Print Assumptions C16_number_of_fibers_sdss.
+
+(* otherwise every plate gets N_TOTAL of the platelist row with its plate, its latest MJD and the call's RUN2D / RUN1D *)
+Theorem C16_number_of_fibers_boss : forall sv pl r2 r1 plates nf p0,
+  In p0 plates -> (boss_first_mjd <= latest_mjd sv p0)%Z ->
+  number_of_fibers sv pl r2 r1 plates = Some nf ->
+  length nf = length plates /\
+  forall i p, nth_error plates i = Some p ->
+    exists n, ntotal_lookup pl p (latest_mjd sv p) r2 r1 = Some n /\ nth_error nf i = Some n.
+Proof. exact number_of_fibers_boss. Qed.
+Print Assumptions C16_number_of_fibers_boss.
+
+Theorem C16_ntotal_lookup_spec : forall pl p m r2 r1 n,
+  ntotal_lookup pl p m r2 r1 = Some n ->
+  exists r, In r pl /\ pl_plate r = p /\ pl_mjd r = m /\ pl_run2d r = r2 /\ pl_run1d r = r1 /\ pl_ntotal r = n.
+Proof. exact ntotal_lookup_spec. Qed.
+Print Assumptions C16_ntotal_lookup_spec.
+
+(* the expanded request list: plates in increasing order, each with its latest MJD and fibres 1..nfiber in order *)
+Theorem C16_all_fibers_requests : forall sv pl r2 r1 plates nf,
+  NoDup plates ->
+  number_of_fibers sv pl r2 r1 plates = Some nf -> (forall n, In n nf -> (0 <= n)%Z) ->
+  request_vectors_all sv pl r2 r1 (Ar plates) None =
+  Some (flat_map (fun p => map (fun f => (p, latest_mjd sv p, Z.of_nat f)) (seq 1 (Z.to_nat (nf_first plates nf p))))
+                 (usort plates)).
+Proof. exact all_fibers_requests. Qed.
+Print Assumptions C16_all_fibers_requests.
+
+Theorem C16_all_fibers_requests_scalar : forall sv pl r2 r1 p n,
+  number_of_fibers sv pl r2 r1 [p] = Some [n] -> (0 <= n)%Z ->
+  request_vectors_all sv pl r2 r1 (Sc p) None = Some (map (fun f => (p, latest_mjd sv p, Z.of_nat f)) (seq 1 (Z.to_nat n))).
+Proof. exact all_fibers_requests_scalar. Qed.
+Print Assumptions C16_all_fibers_requests_scalar.
+
+(* nfiber(p) in the theorem above is the entry of number_of_fibers at p's position *)
+Theorem C16_nf_first_nodup : forall plates nfibers i p n,
+  NoDup plates -> nth_error plates i = Some p -> nth_error nfibers i = Some n -> nf_first plates nfibers p = n.
+Proof. exact nf_first_nodup. Qed.
+Print Assumptions C16_nf_first_nodup.
+
+Theorem C16_readspec_model_all_eq_S : forall sv pl r2 r1 plate mjd reqs,
+  wf_survey sv = true ->
+  request_vectors_all sv pl r2 r1 plate mjd = Some reqs ->
+  (forall r, In r reqs -> valid_req r) ->
+  readspec_model_all sv pl r2 r1 plate mjd = readspec_S sv reqs None.
+Proof. exact readspec_model_all_eq_S. Qed.
+Print Assumptions C16_readspec_model_all_eq_S.
+
+(* ---------------------------------------------------------------- spec_path and file names *)
+
+(* '{0:0Wd}'.format(n): digits only, at least W of them, and the number can be read back *)
+Theorem C16_fmt_spec : forall (w : nat) (n : Z), (0 <= n)%Z ->
+  dvalue (fmt w n) = n /\ forallb is_digit (fmt w n) = true /\ w <= length (fmt w n).
+Proof. exact (fun w n H => conj (fmt_value w n H) (conj (fmt_digits w n H) (fmt_min_length w n))). Qed.
+Print Assumptions C16_fmt_spec.
+
+(* different (plate, mjd) never give the same file name ... *)
+Theorem C16_file_name_injective : forall prefix p m p' m',
+  (0 <= p)%Z -> (0 <= m)%Z -> (0 <= p')%Z -> (0 <= m')%Z ->
+  file_name prefix p m = file_name prefix p' m' -> p = p' /\ m = m'.
+Proof. exact file_name_injective. Qed.
+Print Assumptions C16_file_name_injective.
+
+(* ... nor the same spPlate / spZbest / spZall path within one location and reduction *)
+Theorem C16_spplate_file_injective : forall l r p m p' m',
+  (0 <= p)%Z -> (0 <= m)%Z -> (0 <= p')%Z -> (0 <= m')%Z ->
+  spplate_file l r p m = spplate_file l r p' m' -> p = p' /\ m = m'.
+Proof. exact spplate_file_injective. Qed.
+Print Assumptions C16_spplate_file_injective.
+
+Theorem C16_spz_file_injective : forall l r r1 prefix p m p' m',
+  (0 <= p)%Z -> (0 <= m)%Z -> (0 <= p')%Z -> (0 <= m')%Z ->
+  spz_file l r r1 prefix p m = spz_file l r r1 prefix p' m' -> p = p' /\ m = m'.
+Proof. exact spz_file_injective. Qed.
+Print Assumptions C16_spz_file_injective.
+
+Theorem C16_plate_dir_injective : forall t r p p',
+  (0 <= p)%Z -> (0 <= p')%Z -> plate_dir (LTop t) r p = plate_dir (LTop t) r p' -> p = p'.
+Proof. exact plate_dir_injective. Qed.
+Print Assumptions C16_plate_dir_injective.
+
+(* the same request names the same file whether the top directory comes from topdir= or from the environment
+   variable selected by run2d; topdir= wins over the environment; the file name does not depend on the convention;
+   path= wins over everything *)
+Theorem C16_convention_independent : forall env r t p m,
+  env_top env r = Some t ->
+  resolve_loc None None env r = resolve_loc None (Some t) env r /\
+  (forall env', resolve_loc None (Some t) env' r = Some (LTop t)) /\
+  (forall l, last (spplate_file l r p m) [] = file_name pre_spplate p m) /\
+  (forall d topdir env', resolve_loc (Some d) topdir env' r = Some (LPath d)).
+Proof. exact convention_independent. Qed.
+Print Assumptions C16_convention_independent.
+
+(* SPECIFICATION OF THE HISTORY GROUPS: several trees / reductions with pairwise different (directory | top
+   directory, run2d) mounted in one file system; a request looked up through the location and run2d of tree t finds
+   exactly what t's own survey holds for (plate, mjd), whatever else is mounted and whatever was read before *)
+Theorem C16_mount_lookup : forall trees t p m,
+  NoDup (map tkey trees) -> (forall t', In t' trees -> nonneg_survey (t_survey t')) ->
+  In t trees -> (0 <= p)%Z -> (0 <= m)%Z ->
+  fs_find (mount trees) (spplate_file (t_loc t) (t_run2d t) p m) = find_file (t_survey t) p m.
+Proof. exact mount_lookup. Qed.
+Print Assumptions C16_mount_lookup.
+
 (* ---------------------------------------------------------------- non-vacuity *)
 
 Definition ex_file (p m : Z) (npix : nat) (base : Z) : file :=
@@ -297,3 +433,13 @@ Example C16_ex_append :
   spec_append [[1; 1; 1; 1; 1]]%Z [[2; 2; 2; 2]]%Z 1 = [[1; 1; 1; 1; 1]; [0; 2; 2; 2; 2]]%Z /\
   spec_append [[1; 1; 1; 1; 1]]%Z [[2; 2; 2; 2]]%Z 3 = [[1; 1; 1; 1; 1; 0; 0]; [0; 0; 0; 2; 2; 2; 2]]%Z.
 Proof. exact (conj eq_refl (conj eq_refl eq_refl)). Qed.
+
+Example C16_ex_paths :
+  spplate_file (LTop [84]%Z) [118; 53]%Z 266 51602 =
+    [[84]; [118; 53]; [48; 50; 54; 54]; [115; 112; 80; 108; 97; 116; 101; 45; 48; 50; 54; 54; 45; 53; 49; 54; 48; 50; 46; 102; 105; 116; 115]]%Z /\
+  fmt 4 12345 = [49; 50; 51; 52; 53]%Z /\ fmt 4 0 = [48; 48; 48; 48]%Z.
+Proof. exact (conj eq_refl (conj eq_refl eq_refl)). Qed.
+
+Example C16_ex_all_fibers :
+  request_vectors_all ex_survey [mkPl 300 51700 1 1 2]%Z 1 1 (Ar [300; 266]%Z) None = Some (map (fun f => (266, 51630, f)) (map Z.of_nat (seq 1 640)) ++ map (fun f => (300, 51700, f)) (map Z.of_nat (seq 1 640)))%Z.
+Proof. exact eq_refl. Qed.
